@@ -37,10 +37,10 @@ def one(diff, wd):
     rs = json.loads(line[0][4:])
     bad = []
     for r in rs:
-        if r["errors"]:
-            bad.append("FALSE-ALARM unit %s: %s" % (r["unit"], r["errors"][:2]))
-        elif r["status"] != "ok":
+        if r["status"] != "ok":
             bad.append("UNDECIDED unit %s: %s" % (r["unit"], r["undecided"]))
+        elif r["errors"]:
+            bad.append("FALSE-ALARM unit %s: %s" % (r["unit"], r["errors"][:2]))
     return "; ".join(bad) if bad else "all %d units OK" % len(rs)
 
 
